@@ -16,8 +16,9 @@
 
   Theorems are about the dealer model (`Dealer.matchProcedure`, `pickCallee`, `syncCall`, `syncYield`,
   `syncError`, `syncRegister`, `syncUnregister`, `syncRemoveSession`), for every state satisfying
-  `DealerInv`, every environment and all arguments.  (`restricted wamp.*`: `Realm.handleRegister`, lead's
-  C03_restricted_wamp; `forwarded payload unchanged`: also C02_callee_final_yield_payload / _error.)
+  `DealerInv`, every environment and all arguments.  (`restricted wamp.*`: `Realm.handleRegister`,
+  `C03_restricted_wamp`, and the invariant `C03_wamp_callees` over reachable realm states; `forwarded payload
+  unchanged`: also C02_callee_final_yield_payload / _error.)
 
   clause                                                          theorem
   --------------------------------------------------------------  --------------------------------------
@@ -26,8 +27,12 @@
                                                                    unique under DealerInv), C03_match_order
   callee chosen by the registration's policy                       C03_pick_single, _first, _last, _random,
                                                                    C03_pick_roundrobin (rotation)
-  exactly one INVOCATION per chunk, to a callee of the best match, C03_invocation_fields,
-    registration id, payload unchanged                             C03_invocation_callee
+  exactly one INVOCATION per chunk, to a callee of the best match, C03_invocation_fields (at most one),
+    registration id, payload unchanged                             C03_invocation_sent_first, _later (one for
+                                                                   every accepted chunk), C03_invocation_callee
+  round-robin in rotation over consecutive CALLs                   C03_call_cursor (the cursor is stored, also by
+                                                                   a refused call), C03_calls_follow_pickIter,
+                                                                   C03_roundrobin_calls
   receive_progress / procedure / timeout details                   C03_details_receive_progress,
                                                                    C03_details_procedure, C03_details_timeout
   request id never used before towards that callee                 C03_inv_id_step, C03_inv_id_fresh (runs)
@@ -41,12 +46,15 @@
                                                                    C03_answer_routing_foreign_error
   second REGISTER: accepted iff identical sharing policy           C03_shared_policy_accept,
                                                                    C03_shared_policy_refuse
+  restricted wamp.* procedures cannot be registered by clients     C03_restricted_wamp (handler),
+                                                                   C03_wamp_callees (reachable realm states)
   after UNREGISTERED / departure no further call is routed to it   C03_unregistered, C03_gone,
                                                                    C03_not_callee_persists,
                                                                    C03_no_invocation_to_gone
 -/
 import Nexus.L2.Proofs.DealerFrame
 import Nexus.L2.Proofs.DealerExamples
+import Nexus.L2.Proofs.WpBWampRegs
 
 namespace Nexus.C03
 open Nexus.L2 Nexus.Gen.N Nexus
@@ -133,6 +141,214 @@ theorem C03_invocation_callee {s : DState} {proc : String} {reg reg' : Reg} {rnd
 example : (syncCall Ex.env Ex.sReg 2 5 [] "p" [.int 7] [] 0).sends.map (fun x => (x.to, x.msg.typeCode)) = [(1, 68)] := by
   decide +kernel
 
+/-- EXACTLY ONE INVOCATION, first chunk.  A new CALL (not a chunk of a pending one) whose procedure resolves to `reg`,
+    whose caller may use the options it uses, that is not refused (`callRefusal = none`) and whose chosen callee has
+    room: the step sends exactly one message — the INVOCATION to the callee chosen by `pickCallee`, with the next id of
+    that callee's generator, the registration's id, details `invDetails …` and the caller's payload unchanged. -/
+theorem C03_invocation_sent_first {env : DEnv} {s : DState} (h : DealerInv s) {caller : SessKey} {req : Nat} {opts : Dict}
+    {proc : String} (args : List WVal) (kw : Dict) {rnd : Nat} {reg reg' : Reg} {callee : SessKey}
+    (hm : s.d.matchProcedure proc = some reg) (hb : s.d.byCall? ⟨caller, req⟩ = none)
+    (hprog : (opts.optFlag OptProgress && !hasFeat env caller RoleCaller FeatureProgCallInvocations) = false)
+    (hp : pickCallee reg rnd = some (callee, reg'))
+    (hr : callRefusal env s.d.allowDisclose reg caller callee opts = none) (hf : env.full callee = false) :
+    (syncCall env s caller req opts proc args kw rnd).sends =
+      [⟨callee, .invocation (genOf s.invGen callee + 1) reg.id (invDetails env reg caller callee opts proc) args kw⟩] := by
+  have hne : reg.callees.isEmpty = false := by
+    have := (h.reg.regs.callees reg (matchProcedure_mem hm)).1
+    cases hx : reg.callees with
+    | nil => exact absurd hx this
+    | cons _ _ => rfl
+  rw [syncCall_first args kw hm hne hprog hb hp, firstChunk_ok args kw reg' hr hf]
+
+/-- EXACTLY ONE INVOCATION, later chunk.  A further CALL under the request id of the pending call of the stored
+    invocation `v` (caller entitled to progressive call invocations if it sets `progress`, callee has room): exactly
+    one message — INVOCATION to the stored callee under the stored invocation id and registration id, details
+    `{progress}`, payload unchanged — whatever URI the chunk names. -/
+theorem C03_invocation_sent_later {env : DEnv} {s : DState} (h : DealerInv s) {v : Invk} (hv : v ∈ s.d.invs)
+    (opts : Dict) (proc : String) (args : List WVal) (kw : Dict) (rnd : Nat)
+    (hprog : (opts.optFlag OptProgress && !hasFeat env v.callId.sess RoleCaller FeatureProgCallInvocations) = false)
+    (hf : env.full v.callee = false) :
+    (syncCall env s v.callId.sess v.callId.req opts proc args kw rnd).sends =
+      [⟨v.callee, .invocation v.id.req v.regId [(OptProgress, .bool (opts.optFlag OptProgress))] args kw⟩] := by
+  obtain ⟨_, hb, hfi⟩ := h.call.inv_call hv
+  rw [syncCall_later proc args kw rnd hprog hb hfi, laterChunk_ok v.callId.sess v.callId.req opts args kw v.id hf]
+
+/-- both situations occur: the first chunk of (2, 7) in `Ex.sReg`, and a later chunk in `Ex.sProg` -/
+example : (syncCall Ex.env Ex.sReg 2 7 [(OptProgress, .bool true)] "p" [] [] 0).sends.map (fun x => (x.to, x.msg.typeCode)) =
+      [(1, 68)] ∧
+    (syncCall Ex.env Ex.sProg 2 7 [] "p" [.int 1] [] 0).sends.map (fun x => (x.to, x.msg.typeCode)) = [(1, 68)] := by
+  decide +kernel
+
+/-! ### the round-robin cursor over consecutive CALLs -/
+
+theorem firstChunk_regs (env : DEnv) (s : DState) (reg : Reg) (caller : SessKey) (req : Nat) (opts : Dict)
+    (proc : String) (args : List WVal) (kw : Dict) (callee : SessKey) (reg' : Reg) :
+    (firstChunk env s reg caller req opts proc args kw callee reg').st.d.regs = (s.d.setReg reg').regs := by
+  rw [firstChunk_eq]
+  split
+  · rfl
+  · rfl
+  · unfold dispatch
+    split
+    · exact (syncError_sub ..).regs
+    · unfold armTimer
+      split <;> rfl
+
+/-- THE CURSOR IS STORED.  A new CALL whose procedure resolves to `reg` and for which `pickCallee` chooses
+    `(callee, reg')` leaves the registration table with `reg` replaced by `reg'` (the same registration with the
+    advanced round-robin cursor; unchanged for the other policies) and nothing else changed — whether the call is then
+    sent, refused (feature / disclose_me / passthru) or fails on a full callee queue. -/
+theorem C03_call_cursor {env : DEnv} {s : DState} (h : DealerInv s) {caller : SessKey} {req : Nat} {opts : Dict}
+    {proc : String} (args : List WVal) (kw : Dict) {rnd : Nat} {reg reg' : Reg} {callee : SessKey}
+    (hm : s.d.matchProcedure proc = some reg) (hb : s.d.byCall? ⟨caller, req⟩ = none)
+    (hprog : (opts.optFlag OptProgress && !hasFeat env caller RoleCaller FeatureProgCallInvocations) = false)
+    (hp : pickCallee reg rnd = some (callee, reg')) :
+    (syncCall env s caller req opts proc args kw rnd).st.d.regs =
+        s.d.regs.map (fun x => if x.id == reg.id then reg' else x) ∧
+      reg' = { reg with next := reg'.next } ∧
+      (syncCall env s caller req opts proc args kw rnd).st.d.findReg reg.id = some reg' := by
+  have hmem := matchProcedure_mem hm
+  have hne : reg.callees.isEmpty = false := by
+    have := (h.reg.regs.callees reg hmem).1
+    cases hx : reg.callees with
+    | nil => exact absurd hx this
+    | cons _ _ => rfl
+  have hid : reg'.id = reg.id := (pickCallee_shape hp).2.2.1
+  have hregs : (syncCall env s caller req opts proc args kw rnd).st.d.regs =
+      s.d.regs.map (fun x => if x.id == reg.id then reg' else x) := by
+    rw [syncCall_first args kw hm hne hprog hb hp, firstChunk_regs]
+    unfold Dealer.setReg
+    simp only [hid]
+  refine ⟨hregs, (pickCallee_mem hp).2, ?_⟩
+  have hinv' := syncCall_inv (env := env) h caller req opts proc args kw rnd
+  rw [findReg_eq_some hinv'.reg.regs.ids]
+  refine ⟨?_, hid⟩
+  rw [hregs]
+  exact List.mem_map.2 ⟨reg, hmem, by simp⟩
+
+/-- the arguments of one CALL step -/
+structure CallArgs where
+  env : DEnv
+  caller : SessKey
+  req : Nat
+  opts : Dict
+  proc : String
+  args : List WVal
+  kw : Dict
+  rnd : Nat
+
+def callStep (s : DState) (c : CallArgs) : DOut := syncCall c.env s c.caller c.req c.opts c.proc c.args c.kw c.rnd
+
+/-- consecutive CALL steps from `s`, each a new call (not a chunk of a pending one, progress used legitimately) whose
+    procedure resolves to the registration with id `g` -/
+def NewCallsTo (g : Nat) : DState → List CallArgs → Prop
+  | _, [] => True
+  | s, c :: cs =>
+    (∃ r, s.d.matchProcedure c.proc = some r ∧ r.id = g) ∧ s.d.byCall? ⟨c.caller, c.req⟩ = none ∧
+    (c.opts.optFlag OptProgress && !hasFeat c.env c.caller RoleCaller FeatureProgCallInvocations) = false ∧
+    NewCallsTo g (callStep s c).st cs
+
+/-- the callee `syncCall` chooses at each of these steps (the recipient of the INVOCATION if the call goes through:
+    `C03_invocation_sent_first`) -/
+def chosen : DState → List CallArgs → List (Option SessKey)
+  | _, [] => []
+  | s, c :: cs =>
+    ((s.d.matchProcedure c.proc).bind (fun r => (pickCallee r c.rnd).map (·.1))) :: chosen (callStep s c).st cs
+
+/-- Consecutive new CALLs to one registration choose their callees exactly as `pickIter` does on that registration:
+    each call picks from the registration as the previous call left it (cursor advanced), for every policy, whether
+    or not the individual calls were then accepted. -/
+theorem C03_calls_follow_pickIter : ∀ (cs : List CallArgs) {s : DState} {reg : Reg}, DealerInv s → reg ∈ s.d.regs →
+    NewCallsTo reg.id s cs → chosen s cs = (pickIter reg (cs.map (·.rnd))).1.map some
+  | [], _, _, _, _, _ => rfl
+  | c :: cs, s, reg, h, hreg, hall => by
+    obtain ⟨⟨r, hm, hrid⟩, hb, hprog, hrest⟩ := hall
+    have hr : r = reg := nodup_map_inj h.reg.regs.ids (matchProcedure_mem hm) hreg hrid
+    subst hr
+    obtain ⟨callee, reg', hp⟩ := pickCallee_isSome h.reg.regs hreg c.rnd
+    obtain ⟨hregs, _, _⟩ := C03_call_cursor (env := c.env) h c.args c.kw hm hb hprog hp
+    have hid : reg'.id = r.id := (pickCallee_shape hp).2.2.1
+    have hreg' : reg' ∈ (callStep s c).st.d.regs := by
+      unfold callStep
+      rw [hregs]
+      exact List.mem_map.2 ⟨r, hreg, by simp⟩
+    have ih := C03_calls_follow_pickIter cs (s := (callStep s c).st) (reg := reg')
+      (syncCall_inv h _ _ _ _ _ _ _) hreg' (hid ▸ hrest)
+    show (((s.d.matchProcedure c.proc).bind (fun r => (pickCallee r c.rnd).map (·.1))) :: chosen (callStep s c).st cs) = _
+    rw [hm, ih]
+    simp only [List.map_cons, pickIter, hp, Option.bind_some, Option.map_some]
+
+/-- ROUND-ROBIN IN ROTATION.  k consecutive new CALLs to a round-robin registration with n ≥ 2 callees (nothing else
+    happening in between, so the callee list is unchanged) choose callee (start + i) mod n, i = 0 … k−1, where `start`
+    is the stored cursor (reset to 0 when out of range). -/
+theorem C03_roundrobin_calls {s : DState} {reg : Reg} (h : DealerInv s) (hreg : reg ∈ s.d.regs)
+    (hp : reg.policy = InvokeRoundRobin) (hn : 2 ≤ reg.callees.length) (cs : List CallArgs)
+    (hall : NewCallsTo reg.id s cs) :
+    (chosen s cs).length = cs.length ∧
+    ∀ i (_ : i < cs.length), (chosen s cs)[i]? = some (reg.callees[(rrStart reg + i) % reg.callees.length]?) := by
+  rw [C03_calls_follow_pickIter cs h hreg hall]
+  obtain ⟨h1, h2⟩ := C03_pick_roundrobin hp hn (cs.map (·.rnd))
+  refine ⟨by simp [h1], fun i hi => ?_⟩
+  rw [List.getElem?_map, h2 i (by simpa using hi)]
+  have hlt : (rrStart reg + i) % reg.callees.length < reg.callees.length := Nat.mod_lt _ (by omega)
+  rw [List.getElem?_eq_getElem hlt]
+  rfl
+
+theorem NewCallsTo.cons_of {g : Nat} {s : DState} {c : CallArgs} {cs : List CallArgs}
+    (hm : (s.d.matchProcedure c.proc).map (·.id) = some g) (hb : s.d.byCall? ⟨c.caller, c.req⟩ = none)
+    (hp : (c.opts.optFlag OptProgress && !hasFeat c.env c.caller RoleCaller FeatureProgCallInvocations) = false)
+    (hrest : NewCallsTo g (callStep s c).st cs) : NewCallsTo g s (c :: cs) := by
+  cases hr : s.d.matchProcedure c.proc with
+  | none => rw [hr] at hm; cases hm
+  | some r =>
+    rw [hr] at hm
+    exact ⟨⟨r, hr, by simpa using hm⟩, hb, hp, hrest⟩
+
+/-- the hypotheses of `C03_roundrobin_calls` are met by two consecutive calls to "s" in `Ex.sShared` (registration 2,
+    round robin, callees [1, 3]) -/
+example : NewCallsTo 2 Ex.sShared [⟨Ex.env, 2, 11, [], "s", [], [], 0⟩, ⟨Ex.env, 2, 12, [], "s", [], [], 0⟩] ∧
+    (Ex.sShared.d.regs.filter (fun r => r.id == 2)).map (fun r => (r.policy, r.callees)) = [(InvokeRoundRobin, [1, 3])] := by
+  refine ⟨NewCallsTo.cons_of (by decide +kernel) (by decide +kernel) (by decide +kernel)
+    (NewCallsTo.cons_of (by decide +kernel) (by decide +kernel) (by decide +kernel) trivial), by decide +kernel⟩
+
+/-- three consecutive calls to the round-robin registration 2 of `Ex.sShared` (callees [1, 3]) go to 1, 3, 1 -/
+example : chosen Ex.sShared
+    [⟨Ex.env, 2, 11, [], "s", [], [], 0⟩, ⟨Ex.env, 2, 12, [], "s", [], [], 0⟩, ⟨Ex.env, 2, 13, [], "s", [], [], 0⟩] =
+    [some 1, some 3, some 1] := by decide +kernel
+
+/-! ### the restricted `wamp.` namespace -/
+
+/-- A REGISTER for a procedure whose URI starts with "wamp." from any session but the meta session is refused by the
+    handler: exactly one ERROR(REGISTER, req, wamp.error.invalid_uri) is queued for the sender, the dealer is not
+    touched. -/
+theorem C03_restricted_wamp (r : Realm) (s : Session) (req : Nat) (opts : Dict) (proc : String)
+    (hw : proc.startsWith "wamp." = true) (hk : s.key ≠ metaKey) :
+    r.handleRegister s req opts proc =
+      r.trySend ⟨s.key, .error tREGISTER req [] ErrInvalidURI [.str "<text>"] []⟩ ∧
+    (r.handleRegister s req opts proc).ds = r.ds := by
+  have he : r.handleRegister s req opts proc =
+      r.trySend ⟨s.key, .error tREGISTER req [] ErrInvalidURI [.str "<text>"] []⟩ := by
+    unfold Realm.handleRegister
+    simp only
+    split
+    · rfl
+    · rw [if_pos (by simp [hw, hk])]
+      rfl
+  exact ⟨he, by rw [he]; exact Realm.trySend_ds _ _⟩
+
+example : ("wamp.session.count".startsWith "wamp." = true) ∧ ((5 : SessKey) ≠ metaKey) := by decide +kernel
+
+/-- THE INVARIANT.  In every realm state reachable from `Realm.create cfg` by any history of inputs, a registration
+    whose procedure starts with "wamp." has the meta session as its only callee: clients never serve (or share) a
+    procedure of the reserved namespace, whatever they send. -/
+theorem C03_wamp_callees {cfg : Config} {r : Realm} (h : Realm.Reachable cfg r) {reg : Reg} (hreg : reg ∈ r.ds.d.regs)
+    (hw : reg.proc.startsWith "wamp." = true) : reg.callees = [metaKey] :=
+  WpB.Reachable.wamp_callees h hreg hw
+
+/-- … and such registrations exist: the meta procedures of a fresh realm -/
+example : ((Realm.create {}).map (fun r => r.ds.d.regs.all (fun reg => reg.proc.startsWith "wamp." && reg.callees == [metaKey]) &&
+    !r.ds.d.regs.isEmpty)) = some true := by decide +kernel
+
 /-- `receive_progress: true` exactly when the caller asked ∧ the callee announced progressive_call_results ∧
     call_canceling; otherwise the key is absent -/
 theorem C03_details_receive_progress (env : DEnv) (reg : Reg) (caller callee : SessKey) (opts : Dict) (proc : String) :
@@ -207,6 +423,35 @@ theorem C03_inv_id_step {s : DState} {o : DOut} (h : DealerInv s) (st : DStep s 
     rw [hfi] at hf'; cases hf'
     exact ⟨v0, hv, by rw [hvi, hve]⟩
 
+/-- a CALL that sends an INVOCATION has passed the check "progress only from a caller that announced progressive call
+    invocations" -/
+theorem C03_invocation_prog_ok {env : DEnv} {s : DState} (caller : SessKey) (req : Nat) (opts : Dict)
+    (proc : String) (args : List WVal) (kw : Dict) (rnd : Nat) (x : Send)
+    (hx : x ∈ (syncCall env s caller req opts proc args kw rnd).sends) (hi : x.msg.isInvocation = true) :
+    (opts.optFlag OptProgress && !hasFeat env caller RoleCaller FeatureProgCallInvocations) = false := by
+  cases hq : (opts.optFlag OptProgress && !hasFeat env caller RoleCaller FeatureProgCallInvocations) with
+  | false => rfl
+  | true =>
+    exfalso
+    have habort : ∀ y ∈ (progressAbort s caller).sends, y.msg.isInvocation = false := by
+      intro y hy
+      simp only [progressAbort, List.mem_singleton] at hy
+      subst hy; rfl
+    rw [syncCall_eq] at hx
+    split at hx
+    · split at hx
+      · cases hx
+      · rw [if_pos hq] at hx
+        rw [habort x hx] at hi; cases hi
+    · split at hx
+      · simp only [List.mem_singleton] at hx
+        subst hx; cases hi
+      · split at hx
+        · simp only [List.mem_singleton] at hx
+          subst hx; cases hi
+        · try rw [if_pos hq] at hx
+          rw [habort x hx] at hi; cases hi
+
 /-- Over any run of the dealer the generator of a callee never goes back, and every INVOCATION that opens a new
     invocation towards callee `k` in the run has a request id above the generator's value at the start of the run
     and at most its value at the end: ids towards one callee strictly increase. -/
@@ -271,6 +516,36 @@ theorem C03_first_chunk_records {env : DEnv} {s : DState} (h : DealerInv s) {cal
   · have : routerTimeout env reg callee opts = 0 := by omega
     rw [this, armTimer_zero]
     exact ⟨_, hmem, rfl, newInvk_id s reg caller req callee opts, rfl, rfl, rfl⟩
+
+/-- THE INVOCATION BELONGS TO THE CALL OF ITS STEP.  An INVOCATION that opens a new invocation towards `x.to` (its id
+    is not that of a stored invocation — a first chunk) is sent by the CALL step of some caller `c` with request `q`:
+    it carries that CALL's arguments unchanged, it is the only message of the step, and the step records the invocation
+    `(x.to, r)` for the call `(c, q)`. -/
+theorem C03_invocation_of_call {s : DState} {o : DOut} (h : DealerInv s) (st : DStep s o) (x : Send) (hx : x ∈ o.sends)
+    (r g : Nat) (d : Dict) (a : List WVal) (kw : Dict) (hm : x.msg = .invocation r g d a kw)
+    (hnew : ∀ v ∈ s.d.invs, v.id ≠ ⟨x.to, r⟩) :
+    ∃ env c q opts proc rnd, o = syncCall env s c q opts proc a kw rnd ∧ o.sends = [x] ∧
+      (⟨c, q⟩ : ReqId) ∉ s.d.calls ∧ ∃ v ∈ o.st.d.invs, v.callId = ⟨c, q⟩ ∧ v.id = ⟨x.to, r⟩ ∧ v.regId = g := by
+  have hi : x.msg.isInvocation = true := by rw [hm]; rfl
+  obtain ⟨env, caller, req, opts, proc, args, kw', rnd, rfl⟩ := st.invocation_is_call h x hx hi
+  obtain ⟨hs, hform⟩ := syncCall_invocations h caller req opts proc args kw' rnd x hx hi
+  have hprog := C03_invocation_prog_ok caller req opts proc args kw' rnd x hx hi
+  cases hform with
+  | first reg reg' callee hmm hb hp hr hf =>
+    simp only [Msg.invocation.injEq] at hm
+    obtain ⟨rfl, rfl, _, rfl, rfl⟩ := hm
+    obtain ⟨v, hv, h1, h2, _, h4, _⟩ := C03_first_chunk_records h args kw' hmm hb hprog hp hr hf
+    refine ⟨env, caller, req, opts, proc, rnd, rfl, hs, ?_, v, hv, h1, h2, h4⟩
+    intro hc
+    obtain ⟨i, _, hb', _⟩ := h.call.lookup hc
+    rw [hb] at hb'; cases hb'
+  | later iid v0 hb hfi hf =>
+    exfalso
+    simp only [Msg.invocation.injEq] at hm
+    obtain ⟨rfl, _⟩ := hm
+    obtain ⟨_, v, hf', hv, hvi, _, hve⟩ := h.call.byCall?_some hb
+    rw [hfi] at hf'; cases hf'
+    exact hnew v0 hv (by rw [hvi, hve])
 
 /-- While a call stays pending its stored invocation keeps its id, its callee and the recorded registration
     (id and `forward_timeout`), whatever steps happen. -/
